@@ -51,6 +51,7 @@ from tensordict.utils import (
     _get_item,
     _get_leaf_tensordict,
     _get_shape_from_args,
+    _check_index_ndim,
     _getitem_batch_size,
     _index_preserve_data_ptr,
     _infer_size_impl,
@@ -838,6 +839,7 @@ class TensorDict(TensorDictBase):
             isinstance(index, tuple) and any(idx is Ellipsis for idx in index)
         ):
             index = convert_ellipsis_to_idx(index, self.batch_size)
+        _check_index_ndim(index, self.batch_dims)
 
         if isinstance(value, (TensorDictBase, dict)):
             indexed_bs = _getitem_batch_size(self.batch_size, index)
